@@ -183,3 +183,30 @@ func H_C20_tags() {
 	}
 	verif.Reach("tag or setter checked")
 }
+
+// H_C20_refs: the name inside a ${...} expression is a path like any other: under every combination
+// of EnableNumKeys / EscapePath / PathSep the four expansion forms find the setting that was stored
+// under that very name with the same options.
+func H_C20_refs() {
+	key := c20Tags[verif.Choice("name", len(c20Tags)-1)]
+	opts := []ucfg.Option{ucfg.VarExp, ucfg.MaxIdx(4), ucfg.EnableNumKeys(verif.Choice("numkeys", 2) == 1)}
+	if verif.Choice("escape-path", 2) == 1 {
+		opts = append(opts, ucfg.EscapePath())
+	}
+	if verif.Choice("pathsep", 2) == 1 {
+		opts = append(opts, ucfg.PathSep("."))
+	}
+	c, err := ucfg.NewFrom(map[string]interface{}{key: "V"}, opts...)
+	verif.Assume(err == nil)
+	err = c.Merge(map[string]interface{}{"r1": "${" + key + "}", "r2": "${" + key + ":dflt}", "r3": "${" + key + ":+yes}", "r4": "${" + key + ":?msg}"}, opts...)
+	verif.Assume(err == nil)
+	r1, e1 := c.String("r1", -1, opts...)
+	r2, e2 := c.String("r2", -1, opts...)
+	r3, e3 := c.String("r3", -1, opts...)
+	r4, e4 := c.String("r4", -1, opts...)
+	verif.Reach("reference forms compared")
+	verif.Assert(e1 == nil && r1 == "V", "C20/refs: ${name} finds the setting stored under the same name")
+	verif.Assert(e2 == nil && r2 == "V", "C20/refs: ${name:default} finds the setting stored under the same name")
+	verif.Assert(e3 == nil && r3 == "yes", "C20/refs: ${name:+alt} finds the setting stored under the same name")
+	verif.Assert(e4 == nil && r4 == "V", "C20/refs: ${name:?msg} finds the setting stored under the same name")
+}
